@@ -859,6 +859,12 @@ class Interp(Engine):
                 return     # leaves the loop with the state at the break
             if spec.get("body_end"):
                 spec["body_end"](self)
+        except (PyRaise, _Ret):
+            # the loop is left by an exception / a return raised in its body (e.g. caught by a `try` of the enclosing
+            # loop's body): the enclosing invariant for-loop gets its own index back, as on the other exits
+            if outer_i is not None:
+                fr.env[ivar] = outer_i
+            raise
         finally:
             self._wrec.pop()
             if kind == "for":
